@@ -242,3 +242,18 @@ func (s *vLockedStatter) Inc(n string, v int64, r float32, t ...cactus.Tag) erro
 	defer s.mu.Unlock()
 	return s.vStatter.Inc(n, v, r, t...)
 }
+
+// VerifC18IntegralBounds: bounds that are whole numbers.  The engine splits the rendering of a
+// float64 on "integral and within int64" (then the text is the integer's digits, a point and zeros),
+// so a shortcut for whole numbers is compared with the general formatting on both sides of 2^63.
+func VerifC18IntegralBounds() {
+	verifrt.RenderIntegralSplit()
+	st := &vStatter{}
+	r := NewReporter(st, Options{})
+	hi := verifrt.Float64("hi")
+	verifrt.Assume(verifrt.Not(verifrt.IsNaN(hi)))
+	s := verifrt.Int64("s")
+	r.ReportHistogramValueSamples("n", nil, nil, 0.5, hi, s)
+	c18One(st, "Inc", "n."+refValueBound(0.5, 6)+"-"+refValueBound(hi, 6), s, 1)
+	verifrt.Reach("c18-integral")
+}
